@@ -18,10 +18,10 @@ import (
 
 // crash kinds inside a compaction (K2 uses inject.Freeze on the meta wrapper's RemoveBlobs)
 var crashKinds = []string{
-	"freeze-at-deletions",    // packed meta uploaded, the deletions never happen
-	"partial-deletions",      // packed meta uploaded, a strict subset of the small ones deleted
-	"deletions-unacked",      // packed meta uploaded, all small ones deleted, crash before the ack
-	"freeze-at-packed-upload", // crash when the packed meta is about to be written
+	"freeze-at-deletions",       // packed meta uploaded, the deletions never happen
+	"partial-deletions",         // packed meta uploaded, a strict subset of the small ones deleted
+	"deletions-unacked",         // packed meta uploaded, all small ones deleted, crash before the ack
+	"freeze-at-packed-upload",   // crash when the packed meta is about to be written
 	"crash-right-after-trigger", // crash as soon as the triggering receive returned (wherever the goroutine is)
 	"none",
 }
@@ -43,6 +43,7 @@ type history struct {
 	sc     *scanner
 	acked  map[blob.Ref]int // -> index in plains
 	armed  string
+	lost   map[blob.Ref]bool // already reported as lost: not reported again at later restarts
 	unsure map[blob.Ref]int
 	ackSeq []int
 }
@@ -64,7 +65,7 @@ func runHistory(r *ev.Run, root string, h int) {
 	if kind != "none" && n < 230 {
 		n += 110 // room for a second compaction should the first one end by the benign index race
 	}
-	hs := &history{r: r, in: in, id: id, rng: rng, sc: newScanner(), acked: map[blob.Ref]int{}, unsure: map[blob.Ref]int{},
+	hs := &history{r: r, in: in, id: id, rng: rng, sc: newScanner(), acked: map[blob.Ref]int{}, unsure: map[blob.Ref]int{}, lost: map[blob.Ref]bool{},
 		rec: &histRec{CaseID: id + ";", Receives: n, Crash: kind}}
 	hs.armed = kind
 	if err := hs.open(hs.armed); err != nil {
@@ -80,7 +81,7 @@ func runHistory(r *ev.Run, root string, h int) {
 		}
 		points[1+rng.Intn(n-1)] = mode
 	}
-	points[20+rng.Intn(60)] = "quiesced" // always one before any compaction can have happened
+	points[20+rng.Intn(60)] = "quiesced"  // always one before any compaction can have happened
 	points[n-3-rng.Intn(10)] = "quiesced" // and one near the end
 
 	for i := 0; i < n; i++ {
@@ -323,9 +324,19 @@ func (hs *history) verify(label string) {
 	sl := sigLabel(label)
 	// stat (all at once)
 	refs := make([]blob.Ref, 0, len(hs.ackSeq))
+	var live []int
 	for _, pi := range hs.ackSeq {
-		refs = append(refs, hs.plains[pi].Ref)
+		if !hs.lost[hs.plains[pi].Ref] {
+			live = append(live, pi)
+			refs = append(refs, hs.plains[pi].Ref)
+		}
 	}
+	newlyLost := map[blob.Ref]bool{}
+	defer func() {
+		for ref := range newlyLost {
+			hs.lost[ref] = true
+		}
+	}()
 	got := map[blob.Ref]uint32{}
 	dupStat := 0
 	var serr error
@@ -346,10 +357,11 @@ func (hs *history) verify(label string) {
 	if serr != nil {
 		r.Violation("lost-after-index-loss/"+sl, fmt.Sprintf("%s: after restart (%s) StatBlobs of the %d acknowledged blobs failed: %v", hs.id, label, len(refs), serr), hs.rec)
 	} else {
-		for _, pi := range hs.ackSeq {
+		for _, pi := range live {
 			p := hs.plains[pi]
 			size, ok := got[p.Ref]
 			if !ok {
+				newlyLost[p.Ref] = true
 				r.Violation("lost-after-index-loss/"+sl, fmt.Sprintf("%s: after restart (%s) acknowledged blob %s (receive #%d of %d) is not stat-able", hs.id, label, p.Ref, pi, len(hs.plains)), hs.rec)
 			} else if int(size) != len(p.Data) {
 				r.Violation("wrong-size/stat-after-index-loss", fmt.Sprintf("%s: after restart (%s) StatBlobs(%s) = %d, true size %d", hs.id, label, p.Ref, size, len(p.Data)), hs.rec)
@@ -390,10 +402,11 @@ func (hs *history) verify(label string) {
 				r.Violation("wrong-size/enumerate-after-index-loss", fmt.Sprintf("%s: after restart (%s) enumeration reports %s with size %d, true size %d", hs.id, label, sb.Ref, sb.Size, len(hs.plains[pi].Data)), hs.rec)
 			}
 		}
-		for _, pi := range hs.ackSeq {
+		for _, pi := range live {
 			p := hs.plains[pi]
 			switch c := seen[p.Ref]; {
 			case c == 0:
+				newlyLost[p.Ref] = true
 				r.Violation("lost-after-index-loss/"+sl, fmt.Sprintf("%s: after restart (%s) acknowledged blob %s (receive #%d of %d) is not enumerated", hs.id, label, p.Ref, pi, len(hs.plains)), hs.rec)
 			case c > 1:
 				r.Violation("enum-dup-after-compaction", fmt.Sprintf("%s: after restart (%s) blob %s is enumerated %d times", hs.id, label, p.Ref, c), hs.rec)
@@ -401,7 +414,7 @@ func (hs *history) verify(label string) {
 		}
 	}
 	// fetch
-	for _, pi := range hs.ackSeq {
+	for _, pi := range live {
 		p := hs.plains[pi]
 		var b []byte
 		var size uint32
@@ -412,6 +425,7 @@ func (hs *history) verify(label string) {
 		r.Eval(1)
 		switch {
 		case err != nil:
+			newlyLost[p.Ref] = true
 			r.Violation("lost-after-index-loss/"+sl, fmt.Sprintf("%s: after restart (%s) Fetch of acknowledged blob %s (receive #%d of %d) fails: %v", hs.id, label, p.Ref, pi, len(hs.plains), err), hs.rec)
 		case !bytes.Equal(b, p.Data):
 			r.Violation("wrong-bytes-after-index-loss", fmt.Sprintf("%s: after restart (%s) Fetch(%s) returns %d different bytes", hs.id, label, p.Ref, len(b)), hs.rec)
